@@ -36,7 +36,10 @@ SPEC = {
                   "string, protocol, scheme, server name, wsgi.version and wsgi.input (= exactly the body) are functions of the request "
                   "alone - no header line can overwrite them because header variables are CONTENT_LENGTH, CONTENT_TYPE or start with "
                   "HTTP_ (headerKey_not_base) - only the header spelled content-length/content-type feeds the unprefixed variables, and "
-                  "every header variable is the comma-join of its lines in arrival order (headers_comma_joined); the only failures are "
+                  "every header variable is the comma-join of its lines in arrival order (headers_comma_joined), each line decoded as latin-1 - the "
+                  "codec, errors argument and absence of a fall-back of every .decode()/.encode() in _build_environ are read off the source "
+                  "(header_value_latin1, environ_codecs) - so that value.encode('latin1') gives back the request's bytes for every byte string, "
+                  "valid multi-byte UTF-8 included (header_value_roundtrip; utf8_first_breaks_roundtrip shows a UTF-8-first decode does not); the only failures are "
                   "InvalidPath (-> 404) and a non-ASCII query (UnicodeDecodeError); (limit) for every limit value and every chunking of "
                   "a terminated body the loop answers 400 + empty final body without spawning or calling anything iff the body is longer "
                   "than the limit (extracted comparator `>`), otherwise the application is called exactly once in exactly one spawned "
@@ -69,7 +72,8 @@ SPEC = {
                   "(an application that catches them is outside the model); thread identity, executor and call_soon behaviour are "
                   "observed at run time, not modelled (the model counts sync_spawn invocations).",
     "rule": "direct calls: _build_environ on generated scopes (paths with %-escapes / non-ASCII / non-BMP, root_path matching, "
-            "non-matching, trailing slash, equal to the path; repeated and case-variant headers, all 256 one-byte header names; "
+            "non-matching, trailing slash, equal to the path; repeated and case-variant headers, all 256 one-byte header names; header values "
+            "and names that are valid 2-/3-/4-byte UTF-8, alone and next to bytes that are not (deterministic corpus, every tier); "
             "ASCII and non-ASCII queries; server/client/scheme present or absent) and WSGIWrapper.__call__ on asyncio and trio with "
             "scripted applications (list, generator, iterator with/without close, iterable containers with/without close whose "
             "__iter__ returns a separate generator / iterator with or without a close of its own / list iterator or raises, "
@@ -297,10 +301,17 @@ ROOTS = ["", "", "/app", "/app/", "/中", "/a b", "/%41", "/é", "/😀", "/", N
 SUFFIXES = ["", "/", "/x", "/café/x%20y", "/中/文", "le", "/a%2Fb", "//", "/😀", "/\x7f", "/%C3%A9", "/index.html", "/Ā߿ࠀ￿\U00010000"]
 METHODS = ["GET", "GET", "POST", "PUT", "DELETE", "PATCH", "HEAD", "OPTIONS", "M-SEARCH", "é"]
 QUERIES = ["", "", "a=b", "a=%C3%A9&b", "x=1&x=2", "?", "a=b c", "%", "\x7f"]
-BAD_QUERIES = ["a=\xc3\xa9", "\x80", "ok&\xff"]
+BAD_QUERIES = ["a=\xc3\xa9", "\x80", "ok&\xff", "\xe4\xb8\xad", "e=\xf0\x9f\x98\x80&x=\xff"]
 HNAMES = ["content-length", "content-type", "x-a", "x-a", "x-a", "X-A", "x_a", "x-b", "cookie", "accept", "host", "content_length",
           "Content-Length", "Content-Type", "proxy", "x-\xe9", "\xdf", "\xb5-\xff", "a-b-c", "-", "", "x--y", "set-cookie", "via"]
 HVALUES = ["1", "2", "a, b", "", " ", "v\xe9", "text/plain; charset=utf-8", "0", "\xff\x00", "x,y", ","]
+# header values (as bytes, spelled in latin-1) that ARE valid multi-byte UTF-8 - 2-, 3- and 4-byte sequences, alone, inside ASCII and
+# next to bytes that are not UTF-8 (a stray 0xFF, a truncated sequence, an overlong form, an encoded surrogate): PEP 3333 wants every
+# one of them handed on as the latin-1 native string of exactly these bytes
+UTF8_VALUES = ["caf\xc3\xa9", "\xc3\xa9", "\xe4\xb8\xad\xe6\x96\x87", "\xf0\x9f\x98\x80", "n=\xc3\xa9; m=\xe4\xb8\xad; e=\xf0\x9f\x98\x80",
+               "\xc3\xa9\xff", "\xff\xc3\xa9", "\xe4\xb8", "\xc0\xaf", "\xed\xa0\x80", "\xf4\x90\x80\x80", "\xc2\xa0x", "attachment; filename=\xe2\x82\xac.txt"]
+HVALUES += UTF8_VALUES
+UTF8_NAMES = ["x-\xc3\xa9", "\xe4\xb8\xad", "x-\xf0\x9f\x98\x80-y", "\xc3"]
 SERVERS = [None, ["localhost", 80], ["h", 8080], ["/tmp/sock", None], ["::1", 443], ["é.example", 0]]
 CLIENTS = [None, ["1.2.3.4", 5], ["::1", 0], "absent", ["c", None]]
 
@@ -348,7 +359,15 @@ def header_class(js: dict) -> str:
     if not keys:
         return "none"
     rep = max(keys.values())
-    return ("repeated" if rep > 1 else "single") + ("+content" if any(k in keys for k in ("content-length", "content-type")) else "")
+
+    def is_utf8_multibyte(v: str) -> bool:
+        try:
+            return v.encode("latin1").decode("utf8") != v
+        except UnicodeError:
+            return False
+    return (("repeated" if rep > 1 else "single") + ("+content" if any(k in keys for k in ("content-length", "content-type")) else "")
+            + ("+utf8-value" if any(is_utf8_multibyte(v) for _, v in js["headers"]) else "")
+            + ("+high-byte-value" if any(any(ord(ch) > 127 for ch in v) and not is_utf8_multibyte(v) for _, v in js["headers"]) else ""))
 
 
 # --------------------------------------------------------------------------------------------------------------
@@ -366,6 +385,18 @@ def gen_environ(ctx: Ctx, n: int) -> List[dict]:
             "server": None, "client": None}
     for b in range(256):
         cases.append({"family": "environ", "scope": dict(base, headers=[[chr(b), "v"], [chr(b) + "-" + chr(b), "w"], [chr(b), "x"]]), "body": ""})
+    # header values / names that are valid multi-byte UTF-8 (and near misses): alone, repeated next to a latin-1-only value in both
+    # orders (the comma-join must be of the raw bytes of both), under the unprefixed variables, under a name that is UTF-8 itself
+    for v in UTF8_VALUES:
+        for hs in ([["x-a", v]], [["x-a", v], ["x-a", "v\xe9"]], [["x-a", "\xff\x00"], ["X-A", "1"], ["x-a", v]], [["cookie", v], ["content-type", v]],
+                   [["content-length", v], ["content-length", v]], [[UTF8_NAMES[0], v], [UTF8_NAMES[1], v]]):
+            cases.append({"family": "environ", "scope": dict(base, headers=hs), "body": ""})
+    for n in UTF8_NAMES:
+        cases.append({"family": "environ", "scope": dict(base, headers=[[n, "1"], [n, UTF8_VALUES[0]], [n.upper(), "3"]]), "body": ""})
+    for sfx in ("/caf\u00e9", "/\u4e2d/\u6587", "/\U0001f600", "/\u00e9\u4e2d\U0001f600%C3%A9"):
+        cases.append({"family": "environ", "scope": dict(base, path="/r\u00e9" + sfx, root_path="/r\u00e9", headers=[["x-p", UTF8_VALUES[2]]]), "body": ""})
+    for qs in BAD_QUERIES:
+        cases.append({"family": "environ", "scope": dict(base, query_string=qs, headers=[]), "body": ""})
     # the pinned tests' scopes
     cases.append({"family": "environ", "scope": dict(base, path="/中/文", root_path="/中", query_string="bar=baz", http_version="1.0",
                                                       client=["localhost", 80], headers=[]), "body": ""})
@@ -1227,10 +1258,20 @@ def gen_e2e(ctx: Ctx, n: int) -> List[dict]:
             for size in (8, 9):
                 cases.append({"family": "e2e", "name": "limit", "worker": worker, "mount": mount, "pace": {"mode": "free"}, "max": 8, "root_path": "",
                               "request": dict(post, target="/", body="x" * size, cuts=[4, 8]), "app": grid["list"]})
+    # request header values that are valid multi-byte UTF-8 next to ones that are not, and a target with escaped UTF-8, through the whole
+    # server (h11 hands obs-text in field values on as it is): the environ still holds the bytes as latin-1 native strings
+    utf8_req = {"method": "GET", "target": "/app/caf%C3%A9/%E4%B8%AD/%F0%9F%98%80?q=%C3%A9",
+                "headers": [["Host", "h.example"], ["X-A", UTF8_VALUES[0]], ["X-A", "v\xe9"], ["Cookie", UTF8_VALUES[4]], ["X-B", UTF8_VALUES[5]],
+                            ["Content-Disposition", UTF8_VALUES[-1]]], "body": ""}
+    for worker in ("asyncio", "trio"):
+        for mount in ("builtin", "middleware"):
+            cases.append({"family": "e2e", "name": "utf8_headers", "worker": worker, "mount": mount, "pace": {"mode": "free"}, "max": 8, "root_path": "/app",
+                          "request": utf8_req, "app": grid["list"]})
     for _ in range(n):
         body = "".join(chr(rng.randint(0, 255)) for _ in range(rng.choice([0, 0, 3, 8])))
-        req = {"method": "POST" if body else rng.choice(["GET", "POST"]), "target": rng.choice(["/", "/x?q=1", "/a/b", "/p%20q"]),
-               "headers": [["Host", "h"]] + rng.sample([["X-A", "1"], ["x-a", "2"], ["Accept", "*/*"]], rng.randint(0, 3)), "body": body,
+        req = {"method": "POST" if body else rng.choice(["GET", "POST"]), "target": rng.choice(["/", "/x?q=1", "/a/b", "/p%20q", "/%E4%B8%AD"]),
+               "headers": [["Host", "h"]] + rng.sample([["X-A", "1"], ["x-a", "2"], ["Accept", "*/*"], ["x-a", rng.choice(UTF8_VALUES)],
+                                                        ["Cookie", rng.choice(UTF8_VALUES)]], rng.randint(0, 4)), "body": body,
                "cuts": [rng.randint(0, 8)]}
         pace = rng.choice(E2E_PACES + [{"mode": "stutter", "cycles": rng.randint(1, 4)}])
         cases.append({"family": "e2e", "worker": rng.choice(["asyncio", "trio"]), "mount": rng.choice(["builtin", "middleware"]), "pace": pace, "max": 8,
